@@ -85,12 +85,56 @@ class C10(E1Check):
             p["plans"] = plans[p["plan"]]
             p["sigsets"] = sigsets
         progs.append({"reuse": True})
+        progs.append({"equal_owners": True})
         return progs
 
     def work(self, unit: Any, tier: str) -> dict:
         if isinstance(unit, dict) and unit.get("reuse"):
             return self.reuse_unit()
+        if isinstance(unit, dict) and unit.get("equal_owners"):
+            return self.equal_owners_unit()
         return super().work(unit, tier)
+
+    def equal_owners_unit(self) -> dict:
+        from dataclasses import dataclass as _dc
+
+        from ..explore import Chooser, new_summary, reset_determinism, run_main_asyncio
+        from ..reuse import equal_owners_case
+        from ..vloop import Env
+
+        env = Env(Chooser([]), 0)
+        reset_determinism(0)
+        out: dict = {}
+
+        async def main() -> None:
+            from asphalt.core import Event, Signal
+
+            class Ev(Event):
+                pass
+
+            @_dc(frozen=True)
+            class Src:
+                key: int = 7
+
+            Src.sig = Signal(Ev)  # type: ignore[attr-defined]
+            Src.sig.__set_name__(Src, "sig")  # type: ignore[attr-defined]
+
+            async def publish(owner: Any) -> Any:
+                ev = Ev()
+                owner.sig.dispatch(ev)
+                return ev
+
+            out["fails"] = await equal_owners_case(Src, lambda o: o.sig, publish)
+
+        run_main_asyncio(env, main)
+        s = new_summary()
+        s["evaluations"] = s["transitions"] = s["states"] = s["distinct"] = s["nontrivial"] = 1
+        s["outcomes"] = {"done": 1}
+        if out["fails"]:
+            s["violations"].append({"keys": ["equal-owners"], "fails": [list(f) for f in out["fails"]], "program": {"equal_owners": True},
+                                    "choices": [], "trace": [], "outcome": "done"})
+            s["keyhist"] = {"equal-owners": 1}
+        return s
 
     def reuse_unit(self) -> dict:
         """A subscriber outlives its owner; a new owner allocated at the same address publishes: the event must not reach the old
@@ -100,6 +144,13 @@ class C10(E1Check):
         return summary_for("signal", "C10")
 
     def replay(self, rec: dict) -> Any:
+        if rec.get("program", {}).get("equal_owners"):
+            s = self.equal_owners_unit()
+            for v in s["violations"]:
+                for f in v["fails"]:
+                    print("FAIL", f[0], "-", f[1])
+            print(f"VIOLATION property=C10 replay={rec.get('_path', '')}" if s["violations"] else "no violation on this tree")
+            return 1 if s["violations"] else 0
         if rec.get("program", {}).get("reuse"):
             s = self.reuse_unit()
             for v in s["violations"]:
